@@ -7,4 +7,9 @@ require (
 	pgregory.net/rapid v1.3.0
 )
 
+require (
+	github.com/creachadair/mds v0.24.2 // indirect
+	golang.org/x/sync v0.13.0 // indirect
+)
+
 replace github.com/creachadair/jrpc2 => /repo
